@@ -469,6 +469,48 @@ theorem matmulCh_krausNet {conj : α → α} (hc : ConjHom conj) {d0 d1 d2 : Nat
     (rfl : (krausNet conj d1 d2 Ls).part = [d1, d2]), sumRange_eq_sum]
   exact krausTen_compose hc Ks Ls t0 t2
 
+theorem tensorCh_ten (conj : α → α) (P Q : Net α) {p0 p1 q0 q1 : Nat}
+    (hP : P.part = [p0, p1]) (hQ : Q.part = [q0, q1]) (t0 t1 t2 t3 : Nat) :
+    (tensorCh conj P Q).ten [t0, t1, t2, t3] = fullTen conj P [t0, t1] * fullTen conj Q [t2, t3] := by
+  simp [tensorCh, linkProduct, einsum, summedLabels, dedup, sumLabels, bindEnv, mulAll, hP, hQ]
+
+theorem tensorCh_part (conj : α → α) (P Q : Net α) {p0 p1 q0 q1 : Nat}
+    (hP : P.part = [p0, p1]) (hQ : Q.part = [q0, q1]) :
+    (tensorCh conj P Q).part = [p0, p1, q0, q1] ∧ (tensorCh conj P Q).pure = false := by
+  simp [tensorCh, linkProduct, linkMeta, hP, hQ]
+
+/-- a super-channel that is a tensor product `P ⊗ Q` (pre- and post-processing) applied to a
+channel `B` is `P`, then `B`, then `Q`. -/
+theorem matmulSuper_tensorCh (conj : α → α) (P Q B : Net α) {d0 d1 d2 d3 : Nat}
+    (hP : P.part = [d0, d1]) (hB : B.part = [d1, d2]) (hQ : Q.part = [d2, d3]) (t0 t3 : Nat) :
+    (matmulSuper conj (tensorCh conj P Q) B).ten [t0, t3]
+      = (matmulCh conj (matmulCh conj P B) Q).ten [t0, t3] := by
+  have hT := tensorCh_part conj P Q hP hQ
+  have hPB := matmulCh_part conj P B hP hB
+  rw [matmulSuper_ten conj _ B hT.1 hB, matmulCh_ten conj _ Q hPB.1 hQ,
+    fullTen_of_not_pure conj _ hT.2, fullTen_of_not_pure conj _ hPB.2]
+  simp only [tensorCh_ten conj P Q hP hQ, matmulCh_ten conj P B hP hB, sumRange_eq_sum,
+    Finset.sum_mul]
+  rw [Finset.sum_comm]
+  exact Finset.sum_congr rfl (fun u _ => Finset.sum_congr rfl (fun t _ => by ring))
+
+/-- feeding a state through a channel by link product (`state @ N`, `"jk,kl->jl"` with a trivial
+first leg) is `apply`: the result is the state network of `N.apply(ρ)`. -/
+theorem matmulCh_stateNet (conj : α → α) (N : Net α) {d0 d1 : Nat} (hN : N.part = [d0, d1])
+    (ρ : Mat α) {j l : Nat} (hl : l < d1) :
+    (matmulCh conj (stateNet ρ d0) N).ten [0, j * d1 + l]
+      = (stateNet (chanApply conj (fullNet conj N) ρ) d1).ten [0, j * d1 + l] := by
+  rw [matmulCh_ten conj _ N (rfl : (stateNet ρ d0).part = [1, d0]) hN,
+    fullTen_of_not_pure conj (stateNet ρ d0) rfl]
+  show _ = chanApply conj (fullNet conj N) ρ ((j * d1 + l) / d1) ((j * d1 + l) % d1)
+  rw [mul_add_div' j hl, mul_add_mod' j hl,
+    chanApply_not_pure conj (fullNet conj N) rfl (hN : (fullNet conj N).part = [d0, d1]),
+    sumRange_eq_sum, sum_range_mul]
+  refine Finset.sum_congr rfl (fun i _ => Finset.sum_congr rfl (fun k hk => ?_))
+  have hk' := Finset.mem_range.mp hk
+  show ρ ((i * d0 + k) / d0) ((i * d0 + k) % d0) * _ = fullTen conj N _ * _
+  rw [mul_add_div' i hk', mul_add_mod' i hk', mul_comm]
+
 /-- `apply` of `A @ B` is `apply` of `B` after `apply` of `A`, for arbitrary tensors. -/
 theorem chanApply_matmulCh (conj : α → α) (A B : Net α) {d0 d1 d2 : Nat}
     (hA : A.part = [d0, d1]) (hB : B.part = [d1, d2]) (ρ : Mat α) (j l : Nat) :
@@ -490,6 +532,155 @@ theorem chanApply_matmulCh (conj : α → α) (A B : Net α) {d0 d1 d2 : Nat}
     Finset.sum_congr rfl (fun k _ => by ring)))
 
 end compose
+
+/-! ### `is_causal`, `is_unital`, `is_hermitian` on channel objects -/
+
+section predicates
+variable [CommSemiring α]
+
+theorem nsmulN_eq (n : Nat) (x : α) : nsmulN n x = n • x := by
+  induction n with
+  | zero => simp [nsmulN]
+  | succ n ih => rw [nsmulN, ih, succ_nsmul]
+
+/-- contracting a leg with the flattened identity is the partial trace. -/
+theorem sum_eyeVec (d : Nat) (f : Nat → α) :
+    sumRange (d * d) (fun t => f t * eyeVec d t) = ∑ o ∈ range d, f (o * d + o) := by
+  rw [sumRange_eq_sum, sum_range_mul]
+  refine Finset.sum_congr rfl (fun a ha => ?_)
+  rw [Finset.sum_eq_single a]
+  · have ha' := mem_range.mp ha
+    simp [eyeVec, mul_add_div' a ha', mul_add_mod' a ha']
+  · intro b hb hne
+    have hb' := mem_range.mp hb
+    simp [eyeVec, mul_add_div' a hb', mul_add_mod' a hb', Ne.symm hne]
+  · intro h; exact absurd ha h
+
+/-- `(Σ K†K)ᵀ`: `G[i,k] = Σ_K Σ_o K[o,i] · conj K[o,k]`. -/
+def gramIn (conj : α → α) (dout : Nat) (Ks : List (Mat α)) (i k : Nat) : α :=
+  sumList Ks (fun K => ∑ o ∈ range dout, K o i * conj (K o k))
+
+/-- `Σ K K†`: `H[o,p] = Σ_K Σ_i K[o,i] · conj K[p,i]`. -/
+def gramOut (conj : α → α) (din : Nat) (Ks : List (Mat α)) (o p : Nat) : α :=
+  sumList Ks (fun K => ∑ i ∈ range din, K o i * conj (K p i))
+
+theorem traceLast_krausTen (conj : α → α) (din dout : Nat) (Ks : List (Mat α)) (t0 : Nat) :
+    traceLast dout (krausTen conj din dout Ks) [t0] = gramIn conj dout Ks (t0 / din) (t0 % din) := by
+  show sumRange (dout * dout) (fun t => krausTen conj din dout Ks ([t0] ++ [t]) * eyeVec dout t) = _
+  rw [sum_eyeVec]
+  simp only [krausTen, gramIn, List.cons_append, List.nil_append, List.getD_cons_zero,
+    List.getD_cons_succ]
+  rw [sum_sumList_comm]
+  refine sumList_congr _ (fun K _ => Finset.sum_congr rfl (fun o ho => ?_))
+  have ho' := mem_range.mp ho
+  rw [mul_add_div' o ho', mul_add_mod' o ho']
+
+theorem traceFirst_krausTen (conj : α → α) (din dout : Nat) (Ks : List (Mat α)) (t1 : Nat) :
+    traceFirst din (krausTen conj din dout Ks) [t1] = gramOut conj din Ks (t1 / dout) (t1 % dout) := by
+  show sumRange (din * din) (fun t => krausTen conj din dout Ks (t :: [t1]) * eyeVec din t) = _
+  rw [sum_eyeVec]
+  simp only [krausTen, gramOut, List.getD_cons_zero, List.getD_cons_succ]
+  rw [sum_sumList_comm]
+  refine sumList_congr _ (fun K _ => Finset.sum_congr rfl (fun i hi => ?_))
+  have hi' := mem_range.mp hi
+  rw [mul_add_div' i hi', mul_add_mod' i hi']
+
+/-- what `is_causal` tests on the channel object of a Kraus family, exactly:
+`d_in · (Σ K†K)ᵀ = tr(Σ K†K) · 1` (the Gram matrix is a multiple of the identity). -/
+theorem isCausal_krausNet [DecidableEq α] (conj : α → α) (din dout : Nat) (Ks : List (Mat α)) :
+    isCausal conj (krausNet conj din dout Ks) = true ↔
+      ∀ t, t < din * din →
+        din • gramIn conj dout Ks (t / din) (t % din)
+          = (∑ j ∈ range din, gramIn conj dout Ks j j) * eyeVec din t := by
+  have hsub : traceLast din (traceLast dout (krausTen conj din dout Ks)) []
+      = ∑ j ∈ range din, gramIn conj dout Ks j j := by
+    show sumRange (din * din) (fun t => traceLast dout (krausTen conj din dout Ks) ([] ++ [t])
+      * eyeVec din t) = _
+    rw [sum_eyeVec]
+    refine Finset.sum_congr rfl (fun j hj => ?_)
+    have hj' := mem_range.mp hj
+    rw [List.nil_append, traceLast_krausTen, mul_add_div' j hj', mul_add_mod' j hj']
+  have hfull : fullTen conj (krausNet conj din dout Ks) = krausTen conj din dout Ks := rfl
+  have hpart : (krausNet conj din dout Ks).part = [din, dout] := rfl
+  simp only [isCausal, isCausal.go, hpart, hfull, List.length_cons, List.length_nil, causalStep,
+    sq, allIdx, List.take_zero, List.map_nil, List.all_cons, List.all_nil, Bool.and_true,
+    List.all_eq_true, List.mem_range, beq_iff_eq, Nat.reduceAdd, Nat.reduceSub, Nat.le_refl,
+    if_true, List.getD_cons_zero, List.getD_cons_succ, List.nil_append, nsmulN_eq,
+    traceLast_krausTen, hsub]
+
+/-- … in particular the channel object of a trace-preserving family is causal. -/
+theorem isCausal_of_tp [DecidableEq α] (conj : α → α) (din dout : Nat) (Ks : List (Mat α))
+    (htp : ∀ i k, i < din → k < din → gramIn conj dout Ks i k = if i = k then 1 else 0) :
+    isCausal conj (krausNet conj din dout Ks) = true := by
+  rw [isCausal_krausNet]
+  intro t ht
+  have h1 := div_lt_of_lt_sq ht
+  have h2 := mod_lt_of_lt_sq ht
+  rw [htp _ _ h1 h2, Finset.sum_congr rfl (fun j hj => htp j j (mem_range.mp hj) (mem_range.mp hj))]
+  simp only [if_true, eyeVec, Finset.sum_const, Finset.card_range]
+  by_cases h : t / din = t % din <;> simp [h]
+
+/-- what `is_unital` tests: `d_out · Σ K K† = tr(Σ K K†) · 1`. -/
+theorem isUnital_krausNet [DecidableEq α] (conj : α → α) (din dout : Nat) (Ks : List (Mat α)) :
+    isUnital conj (krausNet conj din dout Ks) = true ↔
+      ∀ t, t < dout * dout →
+        dout • gramOut conj din Ks (t / dout) (t % dout)
+          = eyeVec dout t * (∑ o ∈ range dout, gramOut conj din Ks o o) := by
+  have hsub : traceFirst dout (traceFirst din (krausTen conj din dout Ks)) []
+      = ∑ o ∈ range dout, gramOut conj din Ks o o := by
+    show sumRange (dout * dout) (fun t => traceFirst din (krausTen conj din dout Ks) (t :: [])
+      * eyeVec dout t) = _
+    rw [sum_eyeVec]
+    refine Finset.sum_congr rfl (fun o ho => ?_)
+    have ho' := mem_range.mp ho
+    rw [traceFirst_krausTen, mul_add_div' o ho', mul_add_mod' o ho']
+  have hfull : fullTen conj (krausNet conj din dout Ks) = krausTen conj din dout Ks := rfl
+  have hpart : (krausNet conj din dout Ks).part = [din, dout] := rfl
+  simp only [isUnital, hpart, hfull, List.all_eq_true, List.mem_range, beq_iff_eq,
+    List.getD_cons_zero, List.getD_cons_succ, nsmulN_eq, traceFirst_krausTen, hsub]
+
+theorem conj_sumList {conj : α → α} (hc : ConjHom conj) {β : Type} (l : List β) (f : β → α) :
+    conj (sumList l f) = sumList l (fun x => conj (f x)) := by
+  induction l with
+  | nil => simp [sumList, hc.zero]
+  | cons x xs ih => simp only [sumList, hc.add, ih]
+
+theorem matrix_krausNet (conj : α → α) {din dout : Nat} (Ks : List (Mat α)) {r c : Nat}
+    (hr : r < din * dout) (hc' : c < din * dout) :
+    matrix conj (krausNet conj din dout Ks) r c
+      = sumList Ks (fun K => K (r % dout) (r / dout) * conj (K (c % dout) (c / dout))) := by
+  have hdpos : 0 < dout := by
+    rcases Nat.eq_zero_or_pos dout with h | h
+    · subst h; simp at hr
+    · exact h
+  have h1 : c % dout < dout := Nat.mod_lt _ hdpos
+  have h2 : c / dout < din := Nat.div_lt_of_lt_mul (by rw [Nat.mul_comm]; exact hc')
+  have hm : matrix conj (krausNet conj din dout Ks) r c
+      = krausTen conj din dout Ks [r / dout * din + c / dout, r % dout * dout + c % dout] := by
+    simp [matrix, fullTen, krausNet, unflat, prodL, pairIdx]
+  rw [hm]
+  simp only [krausTen, List.getD_cons_zero, List.getD_cons_succ, mul_add_div' _ h1,
+    mul_add_mod' _ h1, mul_add_div' _ h2, mul_add_mod' _ h2]
+
+/-- the Choi matrix of the channel object of a Kraus family is Hermitian. -/
+theorem krausNet_hermitian {conj : α → α} (hc : ConjHom conj) (hinv : ∀ x, conj (conj x) = x)
+    {din dout : Nat} (Ks : List (Mat α)) {r c : Nat} (hr : r < din * dout) (hc' : c < din * dout) :
+    conj (matrix conj (krausNet conj din dout Ks) c r) = matrix conj (krausNet conj din dout Ks) r c := by
+  rw [matrix_krausNet conj Ks hc' hr, matrix_krausNet conj Ks hr hc', conj_sumList hc]
+  refine sumList_congr _ (fun K _ => ?_)
+  rw [hc.mul, hinv, mul_comm]
+
+theorem isHermitian_krausNet [DecidableEq α] {conj : α → α} (hc : ConjHom conj)
+    (hinv : ∀ x, conj (conj x) = x) (din dout : Nat) (Ks : List (Mat α)) :
+    isHermitian conj (krausNet conj din dout Ks) = true := by
+  have hpart : prodL (krausNet conj din dout Ks).part = din * dout := by
+    simp [krausNet, prodL]
+  simp only [isHermitian, hpart, Bool.or_eq_true, List.all_eq_true, List.mem_range, beq_iff_eq]
+  right
+  intro r hr c hc'
+  exact krausNet_hermitian hc hinv Ks hr hc'
+
+end predicates
 
 /-! ### operator ↔ tensor, any partition -/
 
